@@ -19,8 +19,12 @@ package router
 //@ macro addrInv(p) = (len(p.scionLayer.RawSrcAddr) == 4*(1+int(p.scionLayer.SrcAddrType&3)) && len(p.scionLayer.RawDstAddr) == 4*(1+int(p.scionLayer.DstAddrType&3)))
 //@ macro procInv(p) = (p.d != nil && p.pkt != nil && p.path != nil && p.mac != nil && len(p.macInputBuffer) >= 16 && !sameArray(p.macInputBuffer, p.path.Raw) && rawInv(p.path))
 //@ macro pathPosOK(s) = (int(s.PathMeta.CurrHF) < s.NumHops && int(s.PathMeta.CurrINF) < s.NumINF && s.PathMeta.CurrINF == scion.segOf(s.PathMeta.CurrHF, s.PathMeta.SegLen[0], s.PathMeta.SegLen[1]))
-//@ macro hopPtr(p) = uint16(12+addrLen(p.scionLayer.DstAddrType, p.scionLayer.SrcAddrType)+4+8*p.path.NumINF+12*int(p.path.PathMeta.CurrHF))
-//@ macro infPtr(p) = uint16(12+addrLen(p.scionLayer.DstAddrType, p.scionLayer.SrcAddrType)+4+8*int(p.path.PathMeta.CurrINF))
+//@ # offsets of the current hop / info field in the SCION header (what an SCMP pointer designates): common header,
+//@ # address header, the 16 bytes of EPIC metadata in front of the path of an EPIC packet (path type 3), path meta
+//@ # header, info fields, hop fields
+//@ macro epicMeta(p) = ite(p.scionLayer.PathType == 3, 16, 0)
+//@ macro hopPtr(p) = uint16(12+addrLen(p.scionLayer.DstAddrType, p.scionLayer.SrcAddrType)+epicMeta(p)+4+8*p.path.NumINF+12*int(p.path.PathMeta.CurrHF))
+//@ macro infPtr(p) = uint16(12+addrLen(p.scionLayer.DstAddrType, p.scionLayer.SrcAddrType)+epicMeta(p)+4+8*int(p.path.PathMeta.CurrINF))
 //@ macro paramProblem(p, c, ptr) = (p.pkt.slowPathRequest.spType == 4 && p.pkt.slowPathRequest.code == c && p.pkt.slowPathRequest.pointer == ptr)
 //@ # address header length from the scion header documentation: 2*8 bytes of ISD-AS + (DL+1)*4 + (SL+1)*4
 //@ spec func addrLen(dt slayers.AddrType, st slayers.AddrType) int = 16+(int(dt&3)+1)*4+(int(st&3)+1)*4
